@@ -48,8 +48,17 @@ F5 == { Oks(1, 1) \o Oks(2, 1) \o Oks(3, 1) \o Fails(b, m) \o Wait(a) \o <<Chk>>
 F6 == { Fails(1, 2) \o <<Chk>> \o Wait(30) \o <<Chk>> \o Wait(w) \o <<Sel(1, "rr"), Chk, Done(o1), Call(1, o2, "rr"), Chk>>
         \o Fails(1, 2) \o Wait(60) \o <<Chk, Call(1, TRUE, "mod"), Chk>>
         : w \in {0, 30}, o1 \in BOOLEAN, o2 \in BOOLEAN }
+\* F7 (N = 2, KeepAlive): endpoint 1 is blocked, probed and reinstated (so the ratio rule rests for 60 s); then m failures
+\*             in a row on it, w seconds, check -- with the ping of that check booked as a success; one more failure, 5 s, check
+RECURSIVE RepSeq(_, _)
+RepSeq(s, k) == IF k = 0 THEN <<>> ELSE s \o RepSeq(s, k - 1)
+F7 == { Fails(1, 2) \o <<Chk>> \o Wait(30) \o <<Chk, Call(1, TRUE, "rr")>> \o Oks(2, 1) \o Fails(1, m) \o Wait(w) \o <<Chk>>
+        \o Fails(1, 1) \o Wait(5) \o <<Chk, Call(2, TRUE, "rr")>>
+        : m \in {4, 5, 6}, w \in {5, 30} }
+   \cup  \* sparse traffic from the start: every failure on endpoint 1 is followed by j quiet status checks 5 s apart
+      { Oks(2, 1) \o RepSeq(Fails(1, 1) \o RepSeq(Wait(5) \o <<Chk>>, j), 6) \o <<Call(2, TRUE, "mod")>> : j \in {1, 2, 3} }
 \* families over the same constants are generated in one TLC run: "A+B"
-Plans == CASE Family = "F6" -> F6 [] Family = "F1+F2+F3" -> F1 \cup F2 \cup F3 [] Family = "F3+F4" -> F3 \cup F4 [] Family = "F1" -> F1 [] Family = "F2" -> F2 [] Family = "F3" -> F3 [] Family = "F4" -> F4 [] Family = "F5" -> F5
+Plans == CASE Family = "F6" -> F6 [] Family = "F7" -> F7 [] Family = "F1+F2+F3" -> F1 \cup F2 \cup F3 [] Family = "F3+F4" -> F3 \cup F4 [] Family = "F1" -> F1 [] Family = "F2" -> F2 [] Family = "F3" -> F3 [] Family = "F4" -> F4 [] Family = "F5" -> F5
 
 AllTrue == [e \in Eps |-> TRUE]
 Tok == plan[pos]
@@ -79,5 +88,5 @@ PlanNext ==
         /\ sub' = 0 /\ pos' = pos + 1
 PlanInit == Init /\ hist = <<>> /\ plan \in Plans /\ pos = 1 /\ sub = 0
 PlanSpec == PlanInit /\ [][PlanNext]_<<vars, hist, plan, pos, sub>>
-Emit == pos <= Len(plan) \/ PrintT(ToJson([n |-> N, calls |-> 1, overlap |-> Overlap, steps |-> hist]))
+Emit == pos <= Len(plan) \/ PrintT(ToJson([n |-> N, calls |-> 1, overlap |-> Overlap, keepalive |-> KeepAlive, plan |-> plan, steps |-> hist]))
 ====
